@@ -749,6 +749,16 @@ func TestC10(t *testing.T) {
 			f.Ops = append(f.Ops, recipe.FileOp{Op: "NoFormat"})
 			r.Class("noformat_file")
 		}
+		if rapid.IntRange(0, 14).Draw(rt, "big") == 7 {
+			// a big first declaration (tens to hundreds of KiB of output): what is written may be written in pieces
+			var stmts []*recipe.Node
+			for k := rapid.SampledFrom([]int{900, 1700, 2100, 3300}).Draw(rt, "bigstmts"); k > 0; k-- {
+				stmts = append(stmts, recipe.Id("value").C("Op", "=").C("Id", "compute").C("Call", recipe.Lit(k), recipe.Lit("argument")))
+			}
+			// (a declaration that is valid at file level and inside a block, so every entry point renders it)
+			f.Body = append([]*recipe.Node{recipe.S().C("Var").C("Id", "big").C("Op", "=").C("Func").C("Params").C("Block", stmts)}, f.Body...)
+			r.Class("big_output")
+		}
 		if rapid.IntRange(0, 2).Draw(rt, "trailer") == 0 {
 			// generated files often end with a comment block
 			f.Body = append(f.Body, recipe.S().C("Comment", "end of file\n(generated)"))
